@@ -201,7 +201,11 @@ func analyse(kops []op, tl *timeline, phases []phaseInfo) analysis {
 			persistence = "wrong-in-quiescent-reads-until-the-end"
 		}
 	}
-	sig := fmt.Sprintf("acknowledged-write-lost|%s|first-seen-after-fault=%s-on-%s|serving-replica=%s|%s", kind, faultName, victim, servingDesc, persistence)
+	shard := "busy-shard"
+	if strings.HasSuffix(first.R.Key.Series, fmt.Sprintf("w=%d", coldWriter)) {
+		shard = "idle-shard"
+	}
+	sig := fmt.Sprintf("acknowledged-write-lost|serving-replica=%s|lost-key-in=%s|%s|%s|first-seen-after-fault=%s-on-%s", servingDesc, shard, persistence, kind, faultName, victim)
 	return analysis{Sig: sig, What: what + fmt.Sprintf("; %d wrong reads (%d of them quiescent), %d reads after the last wrong one; serving replica: %s", len(bad), quiet, goodAfter, servingDesc), Phase: first.R.Phase, Bad: len(bad), Detail: detail}
 }
 
@@ -216,6 +220,8 @@ func describeHistory(h []string) string {
 		return false
 	}
 	switch {
+	case has(killAfterIdle):
+		return "restarted-after-sigkill-after-idle-shard-flush"
 	case has("kill-during-flush"):
 		return "restarted-after-sigkill-during-flush"
 	case has("kill"):
